@@ -11,6 +11,6 @@ for pid in sorted(props.PROPS):
     subprocess.run([os.path.join(V, "verif"), "check", pid], cwd=V, stdout=subprocess.DEVNULL,
                    env=dict(os.environ, XCPV_NO_FLOORS="1"))
     ev = json.load(open(os.path.join(V, "evidence", pid + ".json")))
-    out[pid] = {r: v["instances"] for r, v in ev["coverage"]["by_rule"].items() if r not in ("ANCHOR", "R-RANGE")}
+    out[pid] = {r: v["instances"] for r, v in ev["coverage"]["by_rule"].items() if r not in ("ANCHOR", "R-RANGE", "R-TILE")}
 json.dump(out, open(os.path.join(V, "tables", "floors.json"), "w"), indent=1, sort_keys=True)
 print(json.dumps(out, indent=1))
